@@ -1,0 +1,88 @@
+//go:build verif
+
+package keeper
+
+// Contracts for the deductive checker in /verif (comment-only; compiled only with -tags verif).
+// C19, iteration helpers: the functions that enumerate the ucdao balances store for ExportGenesis, verified against the
+// KV-iterator model of /verif/specs/c19it instead of being assumed.
+
+/*@
+alias DaoBalance github.com/haqq-network/haqq/x/ucdao/types.Balance
+alias DaoBalList []github.com/haqq-network/haqq/x/ucdao/types.Balance
+
+// the balances prefix store of this keeper in ctx, as an enumeration
+uf dao_bal_seq(ctx Ctx) KVSeq
+
+// key (lenprefix(addr) | denom) and value (amount) decoding: functions of the bytes (codec / key layout assumed)
+uf key_addr(k Bytes) Bytes
+uf key_denom(k Bytes) string
+uf val_amount(v Bytes) int
+func github.com/haqq-network/haqq/x/ucdao/types.AddressAndDenomFromBalancesStore
+    trusted
+    ensures result.2 == nil ==> result.0 == key_addr(key) && result.1 == key_denom(key)
+func UnmarshalBalanceCompat
+    trusted
+    ensures result.1 == nil ==> result.0.Denom == denom && result.0.Amount == val_amount(bz) && val_amount(bz) >= 0
+func (BaseKeeper).Logger
+    trusted
+    pure
+
+func (BaseKeeper).IterateAllBalances
+    inline
+
+// coins accumulated for the account whose bech32 string is a over the first k entries of the enumeration
+ghost func Acc(s KVSeq, k int, a string) Coins
+    def ite(k <= 0, coins_zero(), ite(addr_str(key_addr(kv_key(s, k-1))) == a,
+            cadd(Acc(s, k-1, a), cone(key_denom(kv_key(s, k-1)), val_amount(kv_val(s, k-1)))), Acc(s, k-1, a)))
+// whether some of the first k entries belongs to a
+ghost func Seen(s KVSeq, k int, a string) bool
+    def ite(k <= 0, false, addr_str(key_addr(kv_key(s, k-1))) == a || Seen(s, k-1, a))
+
+// C19 (nothing is dropped by the export): the result lists every account that occurs in the balances store exactly once, with
+// its bech32 address and the coins accumulated over all of its (denomination, amount) entries
+// an account that has not occurred yet has accumulated nothing
+lemma AccUnseen(s KVSeq, k int, a string)
+    requires !Seen(s, k, a)
+    ensures Acc(s, k, a) == coins_zero()
+    induction k above 0
+
+const glob_types_BalancesPrefix Bytes
+func (BaseKeeper).GetAccountsBalances
+    ghostvar a string
+    let it = ret(Iterator, 1, 0)
+    let seq = iter_seq(it)
+    let n = kv_len(iter_seq(it))
+    loop 1 invariant pos: 0 <= iter_pos[it] && iter_pos[it] <= kv_len(seq)
+    loop 1 invariant idx: has(mapAddressToBalancesIdx, a) == Seen(seq, iter_pos[it], a)
+    loop 1 invariant keys: forall b string :: has(mapAddressToBalancesIdx, b) ==> 0 <= mapAddressToBalancesIdx[b] && mapAddressToBalancesIdx[b] < len(balances) && balances[mapAddressToBalancesIdx[b]].Address == b
+    loop 1 invariant once: forall j int :: 0 <= j && j < len(balances) ==> has(mapAddressToBalancesIdx, balances[j].Address) && mapAddressToBalancesIdx[balances[j].Address] == j
+    loop 1 invariant acc: has(mapAddressToBalancesIdx, a) ==> balances[mapAddressToBalancesIdx[a]].Coins == Acc(seq, iter_pos[it], a)
+    loop 1 head use AccUnseen(seq, iter_pos[it], a)
+    maypanic
+    // the enumeration is the one of this keeper's balances prefix store
+    ensures which: seq == pstore_seq(pstore_new(ctx_kvstore(ctx, k.storeKey), glob_types_BalancesPrefix))
+    // for an arbitrary account a
+    ensures complete: Seen(seq, n, a) ==> (exists j int :: 0 <= j && j < len(result) && result[j].Address == a && result[j].Coins == Acc(seq, n, a))
+    ensures distinct: forall i int, j int :: 0 <= i && i < j && j < len(result) ==> result[i].Address != result[j].Address
+    ensures sound: forall j int :: 0 <= j && j < len(result) && result[j].Address == a ==> Seen(seq, n, a)
+    allow frame
+
+// ---- total balance: the sum over the (denom -> amount) entries of the totals store
+func (*cosmossdk.io/math.Int).Unmarshal
+    params i, data
+    modifies *i
+    ensures result == nil ==> *i == val_amount(data) && val_amount(data) >= 0
+specfunc key_str(k Bytes) string = bytes2str(k)
+ghost func TotAcc(s KVSeq, k int) Coins
+    def ite(k <= 0, coins_zero(), cadd(TotAcc(s, k-1), cone(key_str(kv_key(s, k-1)), val_amount(kv_val(s, k-1)))))
+func (BaseKeeper).IterateTotalBalance
+    inline
+func (BaseKeeper).GetTotalBalance
+    let it = ret(Iterator, 1, 0)
+    let seq = iter_seq(it)
+    loop 1 invariant pos: 0 <= iter_pos[it] && iter_pos[it] <= kv_len(seq)
+    loop 1 invariant sum: balance == TotAcc(seq, iter_pos[it])
+    maypanic
+    ensures sum: result == TotAcc(seq, kv_len(seq))
+    allow frame
+@*/
